@@ -59,4 +59,24 @@ CHECKS.update({
  },
 })
 
+OCSP_NOTE = ("Bounded by the abstraction of Ocsp.tla: responder behaviour classes instead of bytes, two certificates sharing subject and serial under different issuers, two validator instances sharing the process-global table, discrete time. "
+             "Responses are real signed DER built with x/crypto/ocsp against scripted HTTP responders. Trusts TLC, the per-URL hit log and (C14) a 60 ms timing margin whose failure can only cause drift, never an alarm.")
+CHECKS.update({
+ "C02": {
+  "text": "Ocsp.tla proves RevokedRejects, StrictNeedsAnswer, LenientNeverDenies and WalkStops for every responder list of length 0..2 (seeded length 3) over 10 behaviour classes (good, revoked, unknown, error status, HTTP 500, garbage, connection refused, wrong content, https with untrusted certificate, non-HTTP scheme) x strict x cache duration {0, >0}; each behaviour (two queries, so the second may come from the cache) is replayed on real OCSPRevocationCheckers with the directional predicates of the property.",
+  "note": OCSP_NOTE,
+  "technique": "TLC over all responder-list behaviours (Ocsp.tla) + replay against scripted responders",
+ },
+ "C05": {
+  "text": "The requirement operator Counts (successful, issuer- or authorised-responder-signed, about this serial) is independent of the parser; OnlyCounted is proved and every signer/serial/status class (issuer, delegated with/without OCSPSigning EKU, the client's own certificate, stranger with/without embedded certificate, sibling CA, other serial, error statuses, malformed) alone and in front of an authentic answer is replayed, with the forged answer always claiming the status that would flip the verdict; plus single-bit mutations inside tbsResponseData/signature of an authentic response.",
+  "note": OCSP_NOTE + " Byte mutations are seeded samples (60 quick / 3000 thorough), not all bytes.",
+  "technique": "TLC decision table (Ocsp.tla Counts/OnlyCounted) + adversarial replay with real signed responses and bit-flip mutations",
+ },
+ "C14": {
+  "text": "Ocsp.tla with a discrete clock proves KeyRight, Bounded, ZeroMeansNone, FailuresNotCached and LifetimeRule; the cache graphs (ticks, status flips good->revoked, queries by two instances for two certificates sharing subject+serial) are toured in real time (1 unit = 120 ms) with one-sided predicates: served from the cache although the specification has no valid entry for that certificate, cached although it must not be, lifetime reported through the hook longer than nextUpdate+skew / default duration.",
+  "note": OCSP_NOTE,
+  "technique": "TLC with discrete time (Ocsp.tla) + real-time tour with hook read-back of lifetimes",
+ },
+})
+
 PENDING = {}
